@@ -113,7 +113,9 @@ func genScenario(t *core.Tape, faulty bool) scenario {
 	sc.Linktest = []time.Duration{0, 150 * time.Millisecond}[t.Choose("scn", 2)]
 	sc.ConnTO = []time.Duration{250 * time.Millisecond, 0}[t.Choose("scn", 2)]
 	if sc.ConnTO == 0 && faulty {
-		sc.ConnTO = 400 * time.Millisecond
+		// with black-holed dials a connect timeout is needed; half of the time far above the close
+		// timeout, so that a Close which waited for a pending dial attempt would stand out
+		sc.ConnTO = []time.Duration{400 * time.Millisecond, 3 * time.Second}[t.Choose("scn", 2)]
 	}
 	ng := 2 + t.Choose("scn", 3)
 	for g := 0; g < ng; g++ {
@@ -132,7 +134,7 @@ func genScenario(t *core.Tape, faulty bool) scenario {
 			sc.Faults = append(sc.Faults, peerFault{At: time.Duration(t.Choose("scn", 150)) * 10 * time.Millisecond, Kind: t.Choose("scn", 4)})
 		}
 		for i := 0; i < 10; i++ {
-			sc.DialOut = append(sc.DialOut, t.Weighted("scn", 5, 2, 1))
+			sc.DialOut = append(sc.DialOut, t.Weighted("scn", 5, 2, 2))
 		}
 	}
 	sc.Handler = []time.Duration{0, 10 * time.Millisecond, 50 * time.Millisecond}[t.Choose("scn", 3)]
